@@ -894,6 +894,7 @@ package reftable
 //@   modifies st.stack, st.merged, listNames, listLen, buflen, bufdata
 //@   ensures wfStack(st) && listStable()
 //@   ensures old(held[listLock()]) ==> namesMatch(st)
+//@   ensures st.merged != nil && len(st.merged.stack) == len(st.stack) && (forall i int :: 0 <= i && i < len(st.stack) ==> st.stack[i].src != nil) && (forall i int :: 0 <= i && i < len(st.merged.stack) ==> st.merged.stack[i] != nil)
 //@   ensures[no-fault-no-livelock] result == nil
 
 //@ func (*Stack).NextUpdateIndex
@@ -1152,3 +1153,70 @@ package reftable
 //@   ensures[no-temp] tmpSubset()
 //@   ensures[at-most-one] appends <= old(appends) + 1 && appends >= old(appends)
 //@   ensures[lock-failure-means-not-committed] result == ErrLockFailure ==> appends == old(appends)
+
+//@ func (*Merged).MaxUpdateIndex
+//@   props C16
+//@   requires[nonnil] m != nil
+//@   requires[nonempty] len(m.stack) > 0
+//@   requires[last] m.stack[len(m.stack)-1] != nil
+//@   nopanic
+//@   pure
+
+//@ extern io/ioutil.ReadDir
+//@   params dirname
+//@   modifies listNames, listLen
+//@   ensures listStable()
+//@   ensures forall i int :: 0 <= i && i < len(result0) ==> result0[i] != nil
+
+//@ iface io/fs.FileInfo.Name
+//@   pure
+
+//@ axiom refSuffixIsNoLock: forall n string :: len(n) >= 4 && n[len(n)-4:] == ".ref" ==> !isLock(n)
+
+// trusted: opens a file read-only (may fail with ENOENT when a racing compaction removed it)
+//@ func NewFileBlockSource
+//@   trusted
+//@   modifies listNames, listLen
+//@   ensures listStable()
+//@   ensures result1 == nil ==> iref(result0) != 0
+
+//@ func (*Reader).Close
+//@   props C16
+//@   requires r != nil && r.src != nil
+//@   pure
+
+//@ func (*Reader).Name
+//@   pure
+//@   ensures result == r.name
+
+//@ func (*Reader).MaxUpdateIndex
+//@   pure
+
+//@ iface BlockSource.Close
+//@   pure
+
+// C16: Clean succeeds on any stack, including an empty one; it takes and releases the list lock and removes only
+// files that are not locks.
+//@ func (*Stack).Clean
+//@   props C16 C08
+//@   requires wfStack(st) && !held[listLock()] && (forall i int :: 0 <= i && i < len(st.stack) ==> st.stack[i].src != nil)
+//@   nopanic
+//@   modifies held, ownsTmp, fileOf, listNames, listLen, lockFails, buflen, bufdata, st.stack, st.merged, anyof(*Addition)
+//@   ensures[locks-released] heldSubset()
+//@   ensures[no-temp] tmpSubset()
+//@   loop 1 invariant -1 <= rangeindex && rangeindex < len(st.stack)
+//@   loop 2 invariant[a] -1 <= rangeindex && rangeindex < len(entries) && closeInv(add) && add.lockFileName == listLock() && wfStack(st) && tmpSubset() && !old(held[listLock()])
+//@   loop 2 invariant[b] forall p string :: held[p] ==> old(held[p]) || p == listLock()
+//@   loop 2 invariant[c] forall i int :: 0 <= i && i < len(entries) ==> entries[i] != nil
+//@   loop 2 invariant[d] len(st.stack) > 0 ==> st.merged != nil && len(st.merged.stack) == len(st.stack)
+
+// C16: Close succeeds on any stack; it removes only files that are not locks and leaves nothing held.
+//@ func (*Stack).Close
+//@   props C16 C08
+//@   requires wfStack(st) && (forall i int :: 0 <= i && i < len(st.stack) ==> st.stack[i].src != nil)
+//@   nopanic
+//@   modifies held, ownsTmp, listNames, listLen, st.stack
+//@   ensures[locks-untouched] heldSame()
+//@   ensures[no-temp] tmpSubset()
+//@   loop 1 invariant -1 <= rangeindex && rangeindex < len(names)
+//@   loop 2 invariant -1 <= rangeindex && rangeindex < len(st.stack) && wfStack(st) && st.stack == old(st.stack) && heldSame() && tmpSubset() && (forall i int :: 0 <= i && i < len(st.stack) ==> st.stack[i].src != nil)
